@@ -198,12 +198,15 @@ def c20(chk):
                 "against the nodes' own gossip listeners and periodic tasks) records every goroutine's lock paths, "
                 "each operation under a 20 s watchdog; (2) Locks.tla: TLC checks deadlock freedom for every "
                 "combination and interleaving of 2 (thorough: 3) of the OBSERVED paths with Go's writer-preferring "
-                "RWMutex; a deadlock found by TLC is turned into a gate in the instrumented build and must really "
-                "hang; (3) at quiescence registry = routing entry = gossip keys on every node (TraceLk.tla)")
+                "RWMutex (also: read-locked twice by one goroutine with a writer in between); a deadlock found by TLC is turned into a gate in the instrumented build and must really "
+                "hang; (3) at quiescence registry = routing entry = gossip keys on every node (TraceLk.tla); (4) the expiry "
+                "sweep raced by two goroutines against incoming gossip about the node it expires, on gossip nodes "
+                "with the real syncer and routing table attached: afterwards gossip state and routing table agree "
+                "(TraceG.tla: AllKnownTracked, NoOrphans, CaughtUpMirrors)")
     chk.assumptions = ["lock identity = mutex field per type (one instance of each per node; nodes only interact "
                        "over sockets)", "data races are reported by the race detector that runs alongside; they are "
                        "not decided by the specification", "the expiry sweep needs a 60 s old left/unreachable node "
-                       "and is not exercised by the stress run"]
+                       "and is not exercised by the live stress run (hence stage 4)"]
     with vp.Scratch("locks") as d:
         binary, sites = build_leng(d)
         chk.notes["instrumented_lock_sites"] = sites
@@ -248,6 +251,10 @@ def c20(chk):
                               "schedule hung:\n%s" % (info, st2["crash"][-1500:]))
             raise vp.Machinery("Locks.tla reports a potential deadlock %s but the gated real run did not hang "
                                "(gate hits: %s); not reported as a violation" % (info, (st2 or {}).get("gate_hits")))
+    # expiry cannot happen in a live run (the expiry period is a one-minute constant): the sweep is raced against
+    # incoming gossip on the gossip engine's nodes, with the real syncer and routing table attached
+    import checks_routing
+    checks_routing.race_expiry(chk)
 
 
 def _replay(chk, obj):
